@@ -104,7 +104,7 @@ IND_DEFAULT = dict(eofSent=True, eofRecv=True, segRecv=True, finished=True)
 
 DEFAULT_CFG = dict(
     id=0, mode="ACK", closure=False, putMode="none", putClosure="none", segLen=4, maxPkt=512, crc=False,
-    chk="CRC32", ackInt=1000, ackLim=2, nakInt=1000, nakLim=2, chkInt=1000, chkLim=2, immNak=True,
+    chk="CRC32", ackInt=1000, ackIntD=0, ackLim=2, nakInt=1000, nakLim=2, chkInt=1000, chkLim=2, immNak=True,
     disp=False, sIdW=2, dIdW=2, sId=1, dId=2, seqW=2, seq0=0, indS=IND_DEFAULT, indD=IND_DEFAULT,
     fhS=FH_DEFAULT, fhD=FH_DEFAULT, file=[48, 49, 50, 51, 52, 53, 54, 55, 56, 57, 65, 66], mdOnly=False,
     srcName="src.bin", dstName="dst.bin", dstShape="file", dstOld=[], msgs=[], xopts=[], memfs=False, more=[],
@@ -472,20 +472,21 @@ class World:
         self.sid = ByteFieldGenerator.from_int(cfg["sIdW"], cfg["sId"])
         self.did = ByteFieldGenerator.from_int(cfg["dIdW"], cfg["dId"])
 
-        def rc(eid):
+        def rc(eid, ack_int=None):
             return RemoteEntityCfg(
                 entity_id=eid, max_packet_len=cfg["maxPkt"],
                 max_file_segment_len=None if cfg["segLen"] == 0 else cfg["segLen"],
                 closure_requested=cfg["closure"], crc_on_transmission=cfg["crc"],
                 default_transmission_mode=MODE[cfg["mode"]], crc_type=CHK[cfg["chk"]],
-                positive_ack_timer_interval_seconds=cfg["ackInt"] / 1000.0,
+                positive_ack_timer_interval_seconds=(ack_int or cfg["ackInt"]) / 1000.0,
                 positive_ack_timer_expiration_limit=cfg["ackLim"],
                 nak_timer_interval_seconds=cfg["nakInt"] / 1000.0, nak_timer_expiration_limit=cfg["nakLim"],
                 check_limit=cfg["chkLim"], immediate_nak_mode=cfg["immNak"],
                 disposition_on_cancellation=cfg["disp"])
 
         self.tbl_s = RemoteEntityCfgTable([rc(self.did)])
-        self.tbl_d = RemoteEntityCfgTable([rc(self.sid)])
+        # the receiver's own positive ACK interval (Finished PDU) may differ from the sender's (ackIntD, 0 = the same)
+        self.tbl_d = RemoteEntityCfgTable([rc(self.sid, cfg.get("ackIntD") or None)])
 
         def icfg(i):
             return IndicationCfg(eof_sent_indication_required=i["eofSent"], eof_recv_indication_required=i["eofRecv"],
